@@ -9,7 +9,7 @@
    integer arrays are lists of Z (or of integral Q for rebin). *)
 From Coq Require Import ZArith QArith Qround Qabs List Bool.
 Import ListNotations.
-From PV Require Import Generated.Smooth Generated.Rebin Generated.Uniq.
+From PV Require Import Generated.Smooth Generated.Rebin Generated.Uniq Generated.Median.
 Open Scope Z_scope.
 
 (* ------------------------------------------------------------------ common *)
@@ -107,9 +107,10 @@ Definition np_median (xs : list Q) : Q :=
   let n := length s in
   if Nat.odd n then nth (Nat.div n 2) s 0%Q
   else ((nth (Nat.div n 2 - 1)%nat s 0%Q + nth (Nat.div n 2) s 0%Q) / 2)%Q.
+(* the branch test and the rank picked from the argsort are GENERATED (Generated/Median.v) *)
 Definition median_plain (xs : list Q) (even : bool) : Q :=
-  if Nat.odd (length xs) || even then np_median xs
-  else nth (Nat.div (length xs) 2) (sortQ xs) 0%Q.
+  if median_uses_npmedian (lenZ xs) even then np_median xs
+  else nth (Z.to_nat (median_pick_rank (lenZ xs))) (sortQ xs) 0%Q.
 
 (* median(array, axis=...) on a 2-D array: np.median along the axis *)
 Definition column (j : nat) (x : list (list Q)) : list Q := map (fun r => nth j r 0%Q) x.
@@ -127,15 +128,15 @@ Definition medfilt_at (xs : list Q) (k : Z) (i : Z) : Q :=
   let h := k / 2 in
   let w := map (fun t => padded xs (i - h + Z.of_nat t)) (seq 0 (Z.to_nat k)) in
   nth (Z.to_nat h) (sortQ w) 0%Q.
-(* M: median(array, width) for 1-D input *)
+(* M: median(array, width) for 1-D input; kernel size, istart, iend and the edge mask are GENERATED *)
 Definition median_filter1 (xs : list Q) (width : Z) : fres1 :=
   let n := lenZ xs in
-  let k := Z.min width n in
+  let k := medfilt1_kernel width n in
   if Z.even k || (k <? 1) then F1ValueError else
-  let istart := Z.quot (width - 1) 2 in
-  let iend := n - Z.quot (width + 1) 2 in
+  let istart := medfilt1_istart width n in
+  let iend := medfilt1_iend width n in
   F1Ok (map (fun t => let i := Z.of_nat t in
-                      if (i <? istart) || (i >? iend) then getQ xs i else medfilt_at xs k i)
+                      if medfilt1_edge i istart iend then getQ xs i else medfilt_at xs k i)
             (seq 0 (length xs))).
 
 Definition get2 (x : list (list Q)) (i j : Z) : Q := if i <? 0 then 0%Q else getQ (nth (Z.to_nat i) x []) j.
@@ -147,18 +148,18 @@ Definition medfilt2_at (x : list (list Q)) (k : Z) (i j : Z) : Q :=
                                   (seq 0 (Z.to_nat k))) (seq 0 (Z.to_nat k)) in
   nth (Z.to_nat ((k * k) / 2)) (sortQ w) 0%Q.
 (* M: median(array, width) for 2-D input: medfilt2d(array, min(width, array.size)), then the edge rows
-   and the edge columns are copied back from the input *)
+   and the edge columns are copied back from the input; kernel, istart, iend, edge masks GENERATED *)
 Definition median_filter2 (x : list (list Q)) (width : Z) : fres2 :=
   let n0 := lenZ x in
   let n1 := Z.of_nat (ncols x) in
-  let k := Z.min width (n0 * n1) in
+  let k := medfilt2_kernel width (n0 * n1) in
   if Z.even k || (k <? 1) then F2ValueError else
-  let istart := Z.quot (width - 1) 2 in
-  let iend0 := n0 - Z.quot (width + 1) 2 in
-  let iend1 := n1 - Z.quot (width + 1) 2 in
+  let istart := medfilt2_istart width n0 n1 in
+  let iend0 := medfilt2_iend0 width n0 n1 in
+  let iend1 := medfilt2_iend1 width n0 n1 in
   F2Ok (map (fun a => let i := Z.of_nat a in
           map (fun b => let j := Z.of_nat b in
-                 if (i <? istart) || (i >? iend0) || (j <? istart) || (j >? iend1)
+                 if medfilt2_edge_row i j istart iend0 iend1 || medfilt2_edge_col i j istart iend0 iend1
                  then get2 x i j else medfilt2_at x k i j)
               (seq 0 (ncols x)))
         (seq 0 (length x))).
